@@ -210,8 +210,9 @@ def run_program(ops, seed, tmp, form="explicit", shared_cb=None):
             data, bases = train_data(state.num_visible, 4)
             gen.abort_a_fit(state, data, bases if len(state.networks) > 1 else None, hook="on_epoch_end")
             before_ = params_flat(state)
-            state.fit(data, epochs=1, pos_batch_size=2, lr=0.05, **({"input_bases": bases} if len(state.networks) > 1 else {}))
-            require(not torch.equal(params_flat(state), before_), "fit-after-aborted-fit:no-training", "a fit() that follows a fit() aborted by an exception (caught) did not change any parameter")
+            # (weight decay: every non-zero weight moves whatever the data gradient is; a CD gradient that is exactly zero is legitimate)
+            state.fit(data, epochs=1, pos_batch_size=2, lr=0.05, optimizer=torch.optim.SGD, optimizer_args={"weight_decay": 0.5}, **({"input_bases": bases} if len(state.networks) > 1 else {}))
+            require(not torch.equal(params_flat(state), before_) or float(before_.abs().max()) == 0.0, "fit-after-aborted-fit:no-training", "a fit() that follows a fit() aborted by an exception (caught) did not change any parameter")
             outs.append(params_flat(state))
         elif k == "long_chains":
             # the same seeded long-chain call twice on this one object (same arguments, parameters untouched): a function of the seed alone
